@@ -556,4 +556,5 @@ PROPS["C06"]["parts"] = [
     {"name": "login", "harness": "C13.c", "flavor": PROPS["C13"].get("flavor", "ubsan"), "images": PROPS["C13"].get("images", (("s", "server"), ("ca", "client"))), "args": ["--san-as", "C06"], "weight": 1},
 ]
 PROPS["C06"]["level_text"] += " In addition the real client+server explorations of the configuration grid under every single fate deviation (one and two clients, ASan build), the relay family of C11 (handshakes through 1 184 transforming relays) and the login-reply enumeration of C13 are re-run with the sanitizers as the only oracle for the client."
+PROPS["C01"]["level_text"] += " The two-client part also has succession cells: client A is cut off (killed) in the middle of a multi-fragment packet in each direction, 65 s later client B logs in, inherits A's slot and tunnel address, and its traffic is judged like any other (clean path and every single deviation)."
 
